@@ -130,3 +130,119 @@ def schema_ref_shares_one_class(kind: int, required: bool, wrap: int) -> bool:
         and bare.get_type_string() == other.get_type_string() and bare.required == other.required == required
         and sorted(s2.classes_by_name) == sorted(schemas.classes_by_name)
     )
+
+
+# ------------------------------------------------------------------------------------------------ component that is only a reference
+from openapi_python_client.parser.properties import ModelProperty, build_schemas  # noqa: E402
+
+_TARGET_KINDS = (
+    {"type": "object", "properties": {"y": {"type": "string"}}},
+    {"type": "object", "properties": {"inner": {"type": "object", "properties": {"y": {"type": "string"}}}}},
+    {"type": "object", "properties": {"l": {"type": "array", "items": {"type": "object", "properties": {"z": {"type": "integer"}}}}}},
+    {"type": "object", "properties": {"u": {"oneOf": [{"type": "object", "properties": {"z": {"type": "integer"}}}, {"type": "string"}]}}},
+    {"type": "object", "additionalProperties": {"type": "object", "properties": {"z": {"type": "integer"}}}},
+    {"type": "object", "properties": {"me": {"$ref": "#/components/schemas/X"}, "e": {"type": "string", "enum": ["a", "b"]}}},
+)
+_RX = {"$ref": "#/components/schemas/X"}
+_RA = {"$ref": "#/components/schemas/Alias"}
+
+
+def _names(s):
+    return sorted(str(k) for k in s.classes_by_name)
+
+
+def _perm(items, p):
+    items = list(items)
+    out = []
+    for i in range(len(items), 0, -1):
+        out.append(items.pop(p % i))
+        p //= i
+    return out
+
+
+def _child_props(s):
+    c = s.classes_by_name["Child"]
+    return sorted(p.name for p in (c.required_properties or []) + (c.optional_properties or []))
+
+
+def _direct(kind):
+    x = _TARGET_KINDS[kind]
+    direct = {"X": x, "User": {"type": "object", "properties": {"a": _RX}}, "Child": {"allOf": [_RX, {"type": "object", "properties": {"c": {"type": "integer"}}}]}}
+    s2 = build_schemas(components={n: oai.Schema.model_validate(v) for n, v in direct.items()}, schemas=Schemas(), config=CFG)
+    assert not s2.errors
+    return _names(s2), _child_props(s2)
+
+
+def _via(kind, wrap, chain):
+    w = ("allOf", "oneOf", "anyOf")[wrap]
+    via = {"X": _TARGET_KINDS[kind], "Alias": {w: [_RX]}, "User": {"type": "object", "properties": {"a": _RA}}, "Child": {"allOf": [_RA, {"type": "object", "properties": {"c": {"type": "integer"}}}]}}
+    if chain:
+        via["Alias"] = {w: [{"$ref": "#/components/schemas/Mid"}]}
+        via["Mid"] = {"allOf": [_RX]}
+    return {n: oai.Schema.model_validate(v) for n, v in via.items()}
+
+
+# validated once, outside symbolic execution (the parser does not modify the schema objects it is given)
+_DIRECT = tuple(_direct(k) for k in range(6))
+_VIA = {(k, w, c): _via(k, w, c) for k in range(6) for w in range(3) for c in (False, True)}
+
+
+def _alias_ok(kind, wrap, order, chain) -> bool:
+    via = None
+    for (k, w, c), v in _VIA.items():
+        if k == kind and w == wrap and c == chain:
+            via = v
+    order_names = _perm(["Alias", "User", "X"], order) + ["Child"] + (["Mid"] if chain else [])
+    s1 = build_schemas(components={n: via[n] for n in order_names}, schemas=Schemas(), config=CFG)
+    want_names, want_props = _pick(_DIRECT, kind)
+    if s1.errors or _names(s1) != want_names:
+        return False
+    a, xx = s1.classes_by_reference["/components/schemas/Alias"], s1.classes_by_reference["/components/schemas/X"]
+    if not isinstance(a, ModelProperty) or a.class_info != xx.class_info:
+        return False
+    return _child_props(s1) == want_props and "c" in want_props
+
+
+def component_alias_equals_direct_reference(kind: int, wrap: int, order: int) -> bool:
+    """
+    A component that is nothing but a reference (`Alias: {allOf|oneOf|anyOf: [$ref X]}`) is the class of X: the
+    document builds without diagnostics exactly like the one that refers to X directly, with the same set of classes,
+    and models that use or extend the alias see X's properties — whatever X contains (inline objects, arrays of them,
+    unions, typed additionalProperties, self reference) and wherever the alias is declared.
+    pre: 0 <= kind < 6 and 0 <= wrap < 3 and 0 <= order < 6
+    post: _
+    """
+    return _alias_ok(kind, wrap, order, False)
+
+
+def component_alias_of_alias_equals_direct_reference(kind: int, wrap: int, order: int) -> bool:
+    """
+    The same through a chain Alias -> Mid -> X.
+    pre: 0 <= kind < 6 and 0 <= wrap < 3 and 0 <= order < 6
+    post: _
+    """
+    return _alias_ok(kind, wrap, order, True)
+
+
+def same_named_component_parameters(loc1: int, loc2: int, kind1: int, kind2: int, name2: int, which: bool, req1: bool) -> bool:
+    """
+    Two reusable parameters may share a name as long as their locations differ (identity = name + location); a
+    reference to either of them behaves exactly like that parameter written inline — it is never answered with the
+    other one.
+    pre: 0 <= loc1 < 3 and 0 <= loc2 < 3 and loc1 != loc2 and 0 <= kind1 < 2 and 1 <= kind2 < 3 and 0 <= name2 < 2
+    post: _
+    """
+    req2 = not req1
+    first = {"name": "limit", "in": _pick(LOCS, loc1), "schema": _pick(KINDS, kind1), "required": True if req1 else False}
+    second = {"name": _pick(("limit", "Limit"), name2), "in": _pick(LOCS, loc2), "schema": _pick(KINDS, kind2), "required": True if req2 else False}
+    params = build_parameters(components={"First": oai.Parameter.model_validate(first), "Second": oai.Parameter.model_validate(second)}, parameters=Parameters(), config=CFG)
+    if params.errors:
+        return False
+    chosen, comp = (second, "Second") if which else (first, "First")
+    ref = oai.Reference.model_validate({"$ref": f"#/components/parameters/{comp}"})
+    op_inline = oai.Operation.model_construct(parameters=[oai.Parameter.model_validate(chosen)], responses={}, tags=None, operationId="op", request_body=None, security=None, summary=None, description=None)
+    op_ref = oai.Operation.model_construct(parameters=[ref], responses={}, tags=None, operationId="op", request_body=None, security=None, summary=None, description=None)
+    ep = Endpoint(path="/p", method="get", description=None, name="op", requires_security=False, tags=[])
+    a, sa, _ = Endpoint.add_parameters(endpoint=ep, data=op_inline, schemas=Schemas(), parameters=params, config=CFG)
+    b, sb, _ = Endpoint.add_parameters(endpoint=ep, data=op_ref, schemas=Schemas(), parameters=params, config=CFG)
+    return _describe(a) == _describe(b) and sorted(sa.classes_by_name) == sorted(sb.classes_by_name)  # (both rejected alike, e.g. an array in a header)
